@@ -13,6 +13,7 @@ echo "demo rc with change: $rc_with, without: $rc_without"
 if [[ "$t" == *"61 passed"* && $rc_with -ne 0 && $rc_without -eq 0 ]]; then
   mkdir -p /verif/seeded/$dest
   cp demo/patch.diff demo/demo.py /verif/seeded/$dest/
+  for extra in demo/*/; do [ -d "$extra" ] && [ "$(basename $extra)" != __pycache__ ] && rsync -a --exclude __pycache__ "$extra" /verif/seeded/$dest/$(basename $extra)/; done
   python3 - <<PY
 import json
 m=json.load(open('$wt/demo/meta.json'))
